@@ -475,6 +475,126 @@ async fn run_case(addr: SocketAddr, certs: &Certs, t: &[&str]) -> anyhow::Result
             }
             Ok(format!("{verdict} probe=ok"))
         }
+        "halfclosed" => {
+            // a peer that has nothing more to send finishes its sending side (FIN) and keeps reading: a subscriber is still a
+            // subscriber, a requestor is still owed its replies
+            let (ns, tp) = fresh();
+            let conn = raw(addr, certs).await?;
+            let msg = |t: &str, h: Option<std::collections::HashMap<String, String>>| Frame::Message(MessagePayload { headers: h, message: bytes::Bytes::from(t.to_string()) });
+            if t[2] == "RS" {
+                let mut sub = raw_stream(&conn).await?;
+                sub.send(reg_frame("RS", &ns, &tp)).await?;
+                let a = answer(&mut sub).await;
+                // (the server has no use for what a subscriber sends: it may already have told it to stop)
+                let _ = sub.finish().await;
+                tokio::time::sleep(Duration::from_millis(300)).await;
+                let other = raw(addr, certs).await?;
+                let mut publ = raw_stream(&other).await?;
+                publ.send(reg_frame("RP", &ns, &tp)).await?;
+                let a2 = answer(&mut publ).await;
+                let mut got = vec![];
+                for m in ["one", "two", "three"] {
+                    publ.send(msg(m, None)).await?;
+                    tokio::time::sleep(Duration::from_millis(150)).await;
+                }
+                while got.len() < 3 { match tokio::time::timeout(Duration::from_millis(1500), sub.next()).await { Ok(Some(Ok(Frame::Message(m)))) => got.push(String::from_utf8_lossy(&m.message).to_string()), _ => break } }
+                Ok(format!("{a} {a2} got={} probe=ok", if got.is_empty() { "-".to_string() } else { got.join("+") }))
+            } else {
+                let client = crate::e2e::client(addr, certs, BackoffStrategy::constant().with_max_attempts(0)).await?;
+                let topic = format!("/{ns}/{tp}");
+                let c2 = client.clone(); let t2 = topic.clone();
+                let rep = tokio::spawn(async move {
+                    let mut replier = c2.replier(&t2).with_request_decoder(StringCodec).with_reply_encoder(StringCodec)
+                        .with_handler(|req: String| async move { tokio::time::sleep(Duration::from_millis(250)).await; Ok::<_, anyhow::Error>(format!("r:{req}")) }).open().await?;
+                    replier.listen().await
+                });
+                tokio::time::sleep(Duration::from_millis(120)).await;
+                let hdr = |id: u32| Some([("req_id".to_string(), id.to_string())].into_iter().collect());
+                let mut rq = raw_stream(&conn).await?;
+                rq.send(reg_frame("RQ", &ns, &tp)).await?;
+                let a = answer(&mut rq).await;
+                rq.send(msg("first", hdr(0))).await?;
+                rq.send(msg("second", hdr(1))).await?;
+                let _ = rq.finish().await;
+                let mut got = vec![];
+                while got.len() < 2 { match tokio::time::timeout(Duration::from_millis(2500), rq.next()).await { Ok(Some(Ok(Frame::Message(m)))) => got.push(String::from_utf8_lossy(&m.message).to_string()), _ => break } }
+                rep.abort();
+                Ok(format!("{a} got={} probe=ok", if got.is_empty() { "-".to_string() } else { got.join("+") }))
+            }
+        }
+        "rebind" => {
+            // a replier that leaves in good order - it finishes and drops its stream, its connection stays - frees the slot: the
+            // next replier to register, on the same connection, is bound (told nothing) and serves. `alone`: no requestor
+            // is registered when the first one leaves and the second one arrives.
+            let (ns, tp) = fresh();
+            let conn = raw(addr, certs).await?;
+            let msg = |t: &str, h: Option<std::collections::HashMap<String, String>>| Frame::Message(MessagePayload { headers: h, message: bytes::Bytes::from(t.to_string()) });
+            let hdr = |id: u32| Some([("req_id".to_string(), id.to_string())].into_iter().collect());
+            let rconn = raw(addr, certs).await?;
+            let mut rq = None;
+            let mut r1 = raw_stream(&conn).await?;
+            r1.send(reg_frame("RR", &ns, &tp)).await?;
+            let a1 = answer(&mut r1).await;
+            let mut served1 = "-".to_string();
+            if t[2] != "alone" {
+                let mut q = raw_stream(&rconn).await?;
+                q.send(reg_frame("RQ", &ns, &tp)).await?;
+                let _ = answer(&mut q).await;
+                q.send(msg("ping1", hdr(0))).await?;
+                if let Ok(Some(Ok(Frame::Message(m)))) = tokio::time::timeout(Duration::from_secs(3), r1.next()).await {
+                    r1.send(Frame::Message(MessagePayload { headers: m.headers.clone(), message: bytes::Bytes::from_static(b"pong1") })).await?;
+                    if let Ok(Some(Ok(Frame::Message(m)))) = tokio::time::timeout(Duration::from_secs(3), q.next()).await { served1 = String::from_utf8_lossy(&m.message).to_string(); }
+                }
+                rq = Some(q);
+            }
+            let _ = r1.finish().await;
+            drop(r1);
+            tokio::time::sleep(Duration::from_millis(1200)).await;
+            let mut r2 = raw_stream(&conn).await?;
+            r2.send(reg_frame("RR", &ns, &tp)).await?;
+            let a2 = answer(&mut r2).await;
+            // bound: nothing further is said to it
+            let told = match tokio::time::timeout(Duration::from_millis(1500), r2.next()).await { Err(_) => "nothing".to_string(), Ok(None) | Ok(Some(Err(_))) => "closed".to_string(), Ok(Some(Ok(Frame::Error(e)))) => format!("Error{}", e.code), Ok(Some(Ok(_))) => "frame".to_string() };
+            let mut served2 = "-".to_string();
+            if told == "nothing" {
+                let mut q = match rq.take() { Some(q) => q, None => { let mut q = raw_stream(&rconn).await?; q.send(reg_frame("RQ", &ns, &tp)).await?; let _ = answer(&mut q).await; q } };
+                q.send(msg("ping2", hdr(7))).await?;
+                if let Ok(Some(Ok(Frame::Message(m)))) = tokio::time::timeout(Duration::from_secs(3), r2.next()).await {
+                    r2.send(Frame::Message(MessagePayload { headers: m.headers.clone(), message: bytes::Bytes::from_static(b"pong2") })).await?;
+                    if let Ok(Some(Ok(Frame::Message(m)))) = tokio::time::timeout(Duration::from_secs(3), q.next()).await { served2 = String::from_utf8_lossy(&m.message).to_string(); }
+                }
+            }
+            Ok(format!("{a1} {a2} first={served1} told={told} second={served2} probe=ok"))
+        }
+        "racerr" => {
+            // two repliers on connections of their own register at the same instant on a topic nobody has used yet: one is bound
+            // and hears nothing more, the other is told that a replier is bound, and closed - <topics> times
+            let topics: usize = t[2].parse()?;
+            let (c1, c2) = (raw(addr, certs).await?, raw(addr, certs).await?);
+            let mut verdict = "ok".to_string();
+            for round in 0..topics {
+                let (ns, tp) = fresh();
+                let barrier = std::sync::Arc::new(tokio::sync::Barrier::new(2));
+                let mut hs = vec![];
+                for c in [&c1, &c2] {
+                    let (c, ns, tp, b) = (c.clone(), ns.clone(), tp.clone(), barrier.clone());
+                    hs.push(tokio::spawn(async move {
+                        let mut s = raw_stream(&c).await?;
+                        b.wait().await;
+                        s.send(reg_frame("RR", &ns, &tp)).await?;
+                        let a = answer(&mut s).await;
+                        let then = match tokio::time::timeout(Duration::from_millis(1200), s.next()).await { Err(_) => "nothing".to_string(), Ok(None) | Ok(Some(Err(_))) => "closed".to_string(), Ok(Some(Ok(Frame::Error(e)))) => format!("Error{}", e.code), Ok(Some(Ok(_))) => "frame".to_string() };
+                        Ok::<_, anyhow::Error>((s, format!("{a}+{then}")))
+                    }));
+                }
+                let mut outs = vec![];
+                let mut keep = vec![];
+                for h in hs { match tokio::time::timeout(Duration::from_secs(6), h).await { Ok(Ok(Ok((s, o)))) => { outs.push(o); keep.push(s); } _ => outs.push("hang".to_string()) } }
+                outs.sort();
+                if outs != vec!["Ok+Error5".to_string(), "Ok+nothing".to_string()] { verdict = format!("FAILED:round{round}:{}", outs.join("/")); break; }
+            }
+            Ok(format!("{verdict} probe=ok"))
+        }
         "ghost" => {
             // a subscriber whose machine vanishes without a word (its datagrams stop; it never closed anything, and it would
             // itself have waited for ever). The server was started with `--max-idle-timeout <ms>`: after that long it gives the
@@ -665,6 +785,11 @@ pub fn run_named(cfg: &Cfg, name: &str) {
         for role in ["RR", "RQ", "RP", "RS"] { cases.push(format!("reg abandon {role} 3")); }
         cases.push("reg mute".into());
         cases.push("reg race 8 30".into());
+        cases.push("reg racerr 30".into());
+        cases.push("reg halfclosed RS".into());
+        cases.push("reg halfclosed RQ".into());
+        cases.push("reg rebind served".into());
+        cases.push("reg rebind alone".into());
         cases.push("reg pipeline RP".into());
         cases.push("reg pipeline RQ".into());
         cases.push("reg lazy 9".into());
@@ -717,7 +842,7 @@ pub fn run_named(cfg: &Cfg, name: &str) {
                 let tag = if t[1] == "stall" || t[1] == "stall1" || t[1] == "mute" || t[1] == "lazy" { "C11/C17" } else if t[1] == "ghost" { "C08/C11" } else if t[1] == "abandon" && t[2] == "RR" { "C10/C11" } else { "C11" };
                 if !probe_ok { dead = line.contains("hang"); m = Err(format!("{tag}: after `{}` well-behaved clients are no longer served: {line}", t[1..].join(" ").chars().take(80).collect::<String>())); }
                 if m.is_ok() {
-                    let answers: Vec<&str> = line.split(' ').filter(|x| !x.starts_with("probe=") && !x.starts_with("queued-peer=") && !x.starts_with("blocked-publisher=") && !x.starts_with("other-names=") && !x.starts_with("queued-peer-later=") && !x.starts_with("same-client=") && !x.starts_with("before=") && !x.starts_with("a=") && !x.starts_with("b=") && !x.starts_with("got=") && !x.starts_with("lib=")).collect();
+                    let answers: Vec<&str> = line.split(' ').filter(|x| !x.starts_with("probe=") && !x.starts_with("queued-peer=") && !x.starts_with("blocked-publisher=") && !x.starts_with("other-names=") && !x.starts_with("queued-peer-later=") && !x.starts_with("same-client=") && !x.starts_with("before=") && !x.starts_with("first=") && !x.starts_with("second=") && !x.starts_with("told=") && !x.starts_with("a=") && !x.starts_with("b=") && !x.starts_with("got=") && !x.starts_with("lib=")).collect();
                     for a in &answers {
                         if *a == "timeout" { m = Err(format!("C11: a stream was neither served nor refused nor closed: {line}")); }
                     }
@@ -727,6 +852,15 @@ pub fn run_named(cfg: &Cfg, name: &str) {
                         if l <= max && !line.contains(" sent ") { m = Err(format!("C05/C11: a frame of payload length {l} <= limit was refused by the encoder: {line}")); }
                         if t[2] == "RP" && l <= max && !line.contains(&format!("got={},5 ", l - 9)) { m = Err(format!("C01/C03/C11: a publisher's frame within the limit (payload length {l}) did not reach the subscriber, or took the following message with it: {line}")); }
                         if t[2] == "RQ" && !line.contains("after=len5") { m = Err(format!("C02/C08/C11: after a request of payload length {l} (refused or not by the replier's sink once tagged) the next request was not answered: {line}")); }
+                    }
+                    if t[1] == "racerr" && !line.starts_with("ok ") { m = Err(format!("C10/C11: two repliers that registered at the same instant on a fresh topic: not exactly one bound and the other told so and closed: {line}")); }
+                    if t[1] == "halfclosed" {
+                        let want = if t[2] == "RS" { "got=one+two+three" } else { "got=r:first+r:second" };
+                        if !line.contains(want) { m = Err(format!("{}: a peer that finished its sending side and kept reading no longer got what it is owed (accepted, then abandoned): {line}", if t[2] == "RS" { "C01/C11" } else { "C02/C11" })); }
+                    }
+                    if t[1] == "rebind" {
+                        let want = if t[2] == "alone" { "first=- told=nothing second=pong2" } else { "first=pong1 told=nothing second=pong2" };
+                        if !line.contains(want) { m = Err(format!("C10/C11: after the bound replier left in good order (its connection still open) the next replier to register was not bound and served: {line}")); }
                     }
                     if t[1] == "race" && !line.starts_with("ok ") { m = Err(format!("C01/C11: subscribers that registered at the same instant on a fresh topic do not all receive what is published on it (accepted, then left on a topic of their own): {line}")); }
                     if t[1] == "pipeline" {
